@@ -1,5 +1,6 @@
 #include "core.hpp"
 #include <execinfo.h>
+#include <malloc.h>
 extern "C" void __sanitizer_symbolize_pc(void* pc, const char* fmt, char* out_buf, size_t out_buf_size);
 
 #include <algorithm>
@@ -238,8 +239,8 @@ size_t memBudgetPeak() { return g_mbPeak; }
 
 } // namespace sk
 
-// cumulative allocation budget: counts bytes requested while the budget is on
-// (not freed bytes: a loader of a <=4KB file has no business requesting 256MB in total)
+// allocation budget while it is on: no single request above the per-allocation cap, and no more live bytes than the
+// total (bytes given back are subtracted: churn - many small short-lived containers - is not memory exhaustion)
 static void* sk_alloc(size_t n)
 {
   using namespace sk;
@@ -271,12 +272,22 @@ static void* sk_alloc(size_t n)
       if (n > g_mbPeak) g_mbPeak = n;
       throw std::bad_alloc();
     }
-    g_mbUsed += n;
     if (n > g_mbPeak) g_mbPeak = n;
   }
   void* p = malloc(n ? n : 1);
   if (!p) throw std::bad_alloc();
+  if (g_mbOn) g_mbUsed += malloc_usable_size(p);
   return p;
+}
+static void sk_free(void* p)
+{
+  using namespace sk;
+  if (p && g_mbOn)
+  {
+    size_t sz = malloc_usable_size(p);
+    g_mbUsed = (g_mbUsed > sz) ? g_mbUsed - sz : 0;
+  }
+  free(p);
 }
 void* operator new(size_t n) { return sk_alloc(n); }
 void* operator new[](size_t n) { return sk_alloc(n); }
@@ -288,10 +299,10 @@ void* operator new[](size_t n, const std::nothrow_t&) noexcept
 {
   try { return sk_alloc(n); } catch (...) { return nullptr; }
 }
-void operator delete(void* p) noexcept { free(p); }
-void operator delete[](void* p) noexcept { free(p); }
-void operator delete(void* p, size_t) noexcept { free(p); }
-void operator delete[](void* p, size_t) noexcept { free(p); }
+void operator delete(void* p) noexcept { sk_free(p); }
+void operator delete[](void* p) noexcept { sk_free(p); }
+void operator delete(void* p, size_t) noexcept { sk_free(p); }
+void operator delete[](void* p, size_t) noexcept { sk_free(p); }
 static void* sk_alloc_al(size_t n, std::align_val_t a)
 {
   using namespace sk;
@@ -300,19 +311,19 @@ static void* sk_alloc_al(size_t n, std::align_val_t a)
     g_mbExceeded = true;
     throw std::bad_alloc();
   }
-  if (g_mbOn) g_mbUsed += n;
   void* p = nullptr;
   size_t al = (size_t)a;
   if (al < sizeof(void*)) al = sizeof(void*);
   if (posix_memalign(&p, al, n ? n : 1) != 0) throw std::bad_alloc();
+  if (g_mbOn) g_mbUsed += malloc_usable_size(p);
   return p;
 }
 void* operator new(size_t n, std::align_val_t a) { return sk_alloc_al(n, a); }
 void* operator new[](size_t n, std::align_val_t a) { return sk_alloc_al(n, a); }
-void operator delete(void* p, std::align_val_t) noexcept { free(p); }
-void operator delete[](void* p, std::align_val_t) noexcept { free(p); }
-void operator delete(void* p, size_t, std::align_val_t) noexcept { free(p); }
-void operator delete[](void* p, size_t, std::align_val_t) noexcept { free(p); }
+void operator delete(void* p, std::align_val_t) noexcept { sk_free(p); }
+void operator delete[](void* p, std::align_val_t) noexcept { sk_free(p); }
+void operator delete(void* p, size_t, std::align_val_t) noexcept { sk_free(p); }
+void operator delete[](void* p, size_t, std::align_val_t) noexcept { sk_free(p); }
 
 namespace sk {
 
